@@ -100,6 +100,10 @@ let handle (w : string list) : string =
      | Some l -> Printf.sprintf "off=%s cap=%s rd=%s wr=%s dend=%s hw=%s free=%s room=%s wf=%s"
          (zs l.l_off) (zs l.l_cap) (show_bool l.l_rd) (show_bool l.l_wr) (zs l.l_dend) (zs l.l_hw)
          (zs (t1_free_after_tag l)) (zs (room (t1_free_after_tag l))) (show_bool (t1_wf_layoutb hr0 m)))
+  | ["ss"; lib; tag; target; o] ->
+    let oc = (match o with "done" -> SsDone | "p1nak" -> SsP1Nak | "p1err" -> SsP1Err | "p2answer" -> SsP2Answer | _ -> SsP2Err) in
+    let ((r, lib'), tag') = sector_select (zi lib) (zi tag) (zi target) oc in
+    show_res (fun s -> " " ^ zs s) r ^ " " ^ zs lib' ^ " " ^ zs tag'
   | ["lock_range"; a; b; c] -> let (lo, hi) = lock_byte_range (zi a) (zi b) (zi c) in zs lo ^ " " ^ zs hi
   | ["rsvd_range"; a; b; c] -> let (lo, hi) = rsvd_byte_range (zi a) (zi b) (zi c) in zs lo ^ " " ^ zs hi
   | _ -> "?unknown-command"
